@@ -632,3 +632,36 @@ func (vm *VM) materialise(s Slice, es int) Slice {
 	vm.ensure(s.obj, s.off+n*es)
 	return Slice{obj: s.obj, off: s.off, len: n, cap: n}
 }
+
+func init() {
+	// sort.Slice(x, less): insertion sort through the less closure (the real one goes through reflectlite's swapper);
+	// the result is the same sorted permutation for a strict weak order, stability aside (sort.Slice is not stable either).
+	stub("sort.Slice", func(vm *VM, fr *frame, args []Value, cc *ssa.CallCommon) Value {
+		ifc := args[0].(Iface)
+		sl, ok := ifc.v.(Slice)
+		if !ok {
+			unsupported("sort.Slice on %T", ifc.v)
+		}
+		st, ok := ifc.t.Underlying().(*types.Slice)
+		if !ok {
+			unsupported("sort.Slice on %s", ifc.t)
+		}
+		es := sizeof(st.Elem())
+		sl = vm.materialise(sl, es)
+		less := args[1]
+		tmp := vm.newObj(es, "sort-swap")
+		for i := 1; i < sl.len; i++ {
+			for j := i; j > 0; j-- {
+				r := vm.callValue(fr, less, []Value{vm.ts.BV(64, uint64(j)), vm.ts.BV(64, uint64(j-1))}, nil)
+				if !vm.decide(r.(*Term)) {
+					break
+				}
+				a, b := sl.off+j*es, sl.off+(j-1)*es
+				vm.copyBytes(tmp, 0, sl.obj, a, es)
+				vm.copyBytes(sl.obj, a, sl.obj, b, es)
+				vm.copyBytes(sl.obj, b, tmp, 0, es)
+			}
+		}
+		return nil
+	})
+}
